@@ -27,6 +27,7 @@ EXPLANATION = (
     "load - and the accounted amount is the same frame.size_Mbits the admission test used. NOT decided: the numeric "
     "bound itself over all traffic patterns (runtime arithmetic)."
 )
+TECHNIQUE = "static: CFG must-pass admission-before-transmit, admission truth tables, who-may-write of load counters, dominator ordering of accounting vs hand-off"
 ASSUMPTIONS = ["frames reach a link only through send_frame (C06 R6.2)", "no writer of current_load via setattr (census)"]
 
 LOAD_WRITERS = {
